@@ -53,8 +53,8 @@ Valid(d) == /\ d.dgOK /\ d.countryOK
             /\ ("absent" \in DOMAIN d.cardsec \/ ObjValid(d.cardsec, d.anchors))
 
 \* ---- the procedure as built (passiveauth.PassiveAuth, cms.SignedData.Verify) ------------------------
-\* reference time: the signing time of the FIRST signer info is kept for all later ones (as built)
-RefTime(obj) == obj.signers[1].time
+\* reference time: each signer info is checked against its own stated signing time
+\* (before commit 0b64fc2 the code kept the time of the FIRST signer info for all later ones)
 
 \* selectCertificate: exactly one certificate named by the signer identifier, else the sole embedded one
 Selected(obj, s) == IF Cardinality(s.sid) = 1 THEN CHOOSE i \in s.sid : TRUE
@@ -82,7 +82,7 @@ SignerAccepted(obj, anchors, s, time) ==
         /\ ChainAnchor(c, anchors, time) # 0
 
 ObjAccepted(obj, anchors) == /\ obj.parse /\ Len(obj.signers) >= 1
-                             /\ \A k \in Idx(obj.signers) : SignerAccepted(obj, anchors, obj.signers[k], RefTime(obj))
+                             /\ \A k \in Idx(obj.signers) : SignerAccepted(obj, anchors, obj.signers[k], obj.signers[k].time)
 
 AsBuiltAccepts(d) == /\ d.countryOK
                      /\ \E j \in Idx(d.anchors) : d.anchors[j].country = "doc"      \* country pool not empty
@@ -103,7 +103,6 @@ GenuineSigner(obj, anchors, s) ==
 
 GenuineObj(obj, anchors) == /\ obj.parse /\ Len(obj.signers) >= 1
                             /\ \A k \in Idx(obj.signers) : GenuineSigner(obj, anchors, obj.signers[k])
-                            /\ \A k \in Idx(obj.signers) : obj.signers[k].time = obj.signers[1].time
 
 Genuine(d) == /\ d.dgOK /\ d.countryOK
               /\ GenuineObj(d.sod, d.anchors)
